@@ -2,13 +2,132 @@
 
 package harness
 
+// Distributed keys for C12 from real DKG runs: the long-term key from an honest Pedersen DKG, the
+// one-time keys from an honest Rabin DKG and another Pedersen DKG.
+
 import (
 	"go.dedis.ch/kyber/v4"
+	dkg "go.dedis.ch/kyber/v4/share/dkg/pedersen"
+	rdkg "go.dedis.ch/kyber/v4/share/dkg/rabin"
+	"go.dedis.ch/kyber/v4/sign/schnorr"
 	"pgregory.net/rapid"
 )
 
-// c12DKGShares produces the long-term and two one-time distributed keys from real DKG runs
-// (filled in by the C11 harness; nil = not available, the case is skipped).
+func honestPedersenDKG(t *rapid.T, g kyber.Group, privs []kyber.Scalar, pubs []kyber.Point, th int, label string) []*dks {
+	suite := vssSuite{g, xofStream(genSeed(t, label+".rand"))}
+	var nodes []dkg.Node
+	for i, p := range pubs {
+		nodes = append(nodes, dkg.Node{Index: uint32(i), Public: p})
+	}
+	nonce := genSeedN(t, label+".nonce", 32)
+	var gens []*dkg.DistKeyGenerator
+	for i := range privs {
+		c := &dkg.Config{Suite: suite, Longterm: privs[i], NewNodes: nodes, Threshold: uint32(th), Nonce: nonce, Auth: schnorr.NewScheme(suite)}
+		gen, err := dkg.NewDistKeyHandler(c)
+		if err != nil {
+			return nil
+		}
+		gens = append(gens, gen)
+	}
+	var deals []*dkg.DealBundle
+	for _, gen := range gens {
+		b, err := gen.Deals()
+		if err != nil {
+			return nil
+		}
+		deals = append(deals, b)
+	}
+	var resps []*dkg.ResponseBundle
+	for _, gen := range gens {
+		rb, err := gen.ProcessDeals(deals)
+		if err != nil {
+			return nil
+		}
+		if rb != nil {
+			resps = append(resps, rb)
+		}
+	}
+	var out []*dks
+	for _, gen := range gens {
+		res, _, err := gen.ProcessResponses(resps)
+		if err != nil || res == nil {
+			return nil
+		}
+		out = append(out, &dks{sh: res.Key.Share, commits: res.Key.Commits})
+	}
+	return out
+}
+
+func honestRabinDKG(t *rapid.T, g kyber.Group, privs []kyber.Scalar, pubs []kyber.Point, th int, label string) []*dks {
+	suite := vssSuite{g, xofStream(genSeed(t, label+".rand"))}
+	var gens []*rdkg.DistKeyGenerator
+	for i := range privs {
+		gen, err := rdkg.NewDistKeyGenerator(suite, privs[i], pubs, uint32(th))
+		if err != nil {
+			return nil
+		}
+		gens = append(gens, gen)
+	}
+	var resps []*rdkg.Response
+	for _, gen := range gens {
+		ds, err := gen.Deals()
+		if err != nil {
+			return nil
+		}
+		for j, d := range ds {
+			r, err := gens[j].ProcessDeal(d)
+			if err != nil {
+				return nil
+			}
+			resps = append(resps, r)
+		}
+	}
+	for _, r := range resps {
+		for i, gen := range gens {
+			if int(r.Response.Index) == i {
+				continue
+			}
+			if _, err := gen.ProcessResponse(r); err != nil {
+				return nil
+			}
+		}
+	}
+	for _, gen := range gens {
+		gen.SetTimeout()
+	}
+	for i, gen := range gens {
+		sc, err := gen.SecretCommits()
+		if err != nil {
+			return nil
+		}
+		for j, g2 := range gens {
+			if i != j {
+				if _, err := g2.ProcessSecretCommits(sc); err != nil {
+					return nil
+				}
+			}
+		}
+	}
+	var out []*dks
+	for _, gen := range gens {
+		k, err := gen.DistKeyShare()
+		if err != nil {
+			return nil
+		}
+		out = append(out, &dks{sh: k.Share, commits: k.Commits})
+	}
+	return out
+}
+
 var c12DKGShares = func(t *rapid.T, g kyber.Group, privs []kyber.Scalar, pubs []kyber.Point, th int) (l, r, r2 []*dks) {
-	return nil, nil, nil
+	if th < 2 || th < len(privs)/2+1 {
+		return nil, nil, nil // the DKGs require a majority threshold
+	}
+	l = honestPedersenDKG(t, g, privs, pubs, th, "dkg.long")
+	r = honestRabinDKG(t, g, privs, pubs, th, "dkg.rand")
+	r2 = honestPedersenDKG(t, g, privs, pubs, th, "dkg.rand2")
+	if l == nil || r == nil || r2 == nil {
+		return nil, nil, nil
+	}
+	return l, r, r2
 }
